@@ -16,6 +16,7 @@ if TYPE_CHECKING:
 
 import random
 import biobalm
+import networkx as nx  # type: ignore
 from biodivine_aeon import Bdd, AsynchronousGraph, BddVariable
 from biobalm.trappist_core import compute_fixed_point_reduced_STG
 from biobalm.symbolic_utils import state_list_to_bdd, valuation_to_state, state_to_bdd
@@ -138,6 +139,15 @@ def compute_attractor_candidates(
                 # This is not a problem if the intersection of the two nodes is non-triviall,
                 # because that means they have common successors (and those should be
                 # solved separately), but the nodes themselves do not depend on each other.
+                continue
+            if n_data["skipped"] or any(
+                (not sd.node_data(d)["expanded"]) or sd.node_data(d)["skipped"]
+                for d in cast(set[int], nx.descendants(sd.dag, n))  # type: ignore
+            ):
+                # An empty result for `n` only means that the attractors inside `n` are
+                # found in its descendants. That is guaranteed only if all of them are
+                # ordinary expanded nodes: a skip node below `n` may itself ignore the
+                # region because of `node`, and the attractor would be reported nowhere.
                 continue
             if n_data["attractor_candidates"] == [] or n_data["attractor_seeds"] == []:
                 # This will create a lot of duplicates, but it seems to be better than
